@@ -50,6 +50,20 @@ def main(chk):
         events.append(ev)
         chk.count("runs_" + s["t"])
         chk.count("raised" if ev["exc"] else "returned")
+    # code -> spec only: string schemas with a pattern whose characters are drawn -- every index
+    # as the outcome of every choice (a hash-ordered candidate string cannot be predicted)
+    from .c09 import has_char_draw
+    swept = set()
+    for e in list(events):
+        s = e["s"]
+        if s["t"] == "str" and s["pattern"] and s["pattern"][0]["k"] == "pat" and not s["value"] \
+                and has_char_draw(s["pattern"][0]["rx"]) and valgen.key(s) not in swept:
+            swept.add(valgen.key(s))
+            for idx in range(1, 101):
+                ev = run_one(cache, s, ["i:%d" % idx])
+                ev["id"] = len(events) + 1
+                events.append(ev)
+                chk.count("index_sweep_runs")
     # code -> spec, beyond the exhaustive universes: random schemas nested three (quick) or
     # four (thorough) levels deep, generated with scripted tapes *and* with the real random
     # module seeded from VERIF_SEED (tape <<>>: no prediction, the property clauses only)
